@@ -12,6 +12,7 @@ from fractions import Fraction
 
 VERIF = os.path.dirname(os.path.dirname(os.path.abspath(__file__)))
 from harness import tlc  # noqa: E402
+from harness import tracecheck  # noqa: E402
 from harness.run import mkbase  # noqa: E402
 
 _VERDICT = re.compile(r'<<"VERDICT", "(.*)">>\s*$')
@@ -30,7 +31,7 @@ def validate(module, cfg, obs, shards=8):
     for k, part in enumerate(parts):
         fd, path = tempfile.mkstemp(prefix=f"obs{k}_", suffix=".json", dir=tlc.OUT)
         with os.fdopen(fd, "w") as f:
-            json.dump(part, f)
+            json.dump(tracecheck.nonull(part), f)
         files.append(path)
     with ThreadPoolExecutor(max_workers=shards) as ex:
         results = list(ex.map(lambda p: tlc.run_tlc(module, cfg=cfg, workers=1, env={"TRACE_FILE": p}, timeout=3000), files))
@@ -230,6 +231,80 @@ def run_events(files):
         shutil.rmtree(base, ignore_errors=True)
     files_r = [[[n, rank[ts], uid, payload, ts] for n, ts, uid, payload in evs] for evs in files]
     return {"kind": "events", "files": files_r, "out": out1, "out2": out2}
+
+
+def table_inputs(rng, count):
+    """Resource-statistics events (consolidated into one table per name, not into event lists): <= 4 events over the names
+    cpu_stats (one row per event) and process_stats (one row per monitored process: 1-3 processes per sample), 3
+    timestamps, <= 3 files. Every row carries a distinct value so that tables compare as sets."""
+    stamps = ["2024-01-01 00:00:01", "2024-01-01 00:00:02", "2024-01-01 00:00:03"]
+    for _ in range(count):
+        nf = rng.randint(1, 3)
+        files = [[] for _ in range(nf)]
+        uid = 0
+        for _ in range(rng.randint(1, 4)):
+            name = rng.choice(["cpu_stats", "process_stats", "process_stats"])
+            ts = stamps[rng.randrange(3)]
+            if name == "cpu_stats":
+                uid += 1
+                rows = [[uid]]
+            else:
+                rows = []
+                for pn in rng.sample(["job1", "job2", "job3"], rng.randint(1, 3)):
+                    uid += 1
+                    rows.append([pn, uid, rng.randint(0, 3)])
+            files[rng.randrange(nf)].append([name, ts, rows])
+        yield files
+
+
+def run_tables(files):
+    """Write resource-statistics events with the real StructuredLogEvent, consolidate with the real EventsSummary, read the
+    tables back through EventsSummary.get_dataframe, consolidate again and read again."""
+    from jade.events import StructuredLogEvent, EventsSummary
+    base = mkbase()
+    stamps = sorted({e[1] for evs in files for e in evs})
+    rank = {ts: k + 1 for k, ts in enumerate(stamps)}
+    cols = {"cpu_stats": ["cpu_percent"], "process_stats": ["name", "rss", "cpu_percent"]}
+    raised = ""
+    out1 = out2 = []
+    try:
+        for k, evs in enumerate(files):
+            with open(os.path.join(base, f"proc{k}_events.log"), "w") as f:
+                for name, ts, rows in evs:
+                    if name == "cpu_stats":
+                        data = {"cpu_percent": rows[0][0]}
+                    else:
+                        data = {"processes": [dict(zip(cols[name], r)) for r in rows]}
+                    ev = StructuredLogEvent(source=f"src{k}", category="ResourceUtilization", name=name, message="m",
+                                            timestamp=ts, **data)
+                    f.write(str(ev) + "\n")
+
+        def read(summary):
+            out = []
+            for name in sorted(cols):
+                df = summary.get_dataframe(name)
+                if len(df.index) == 0 and not len(df.columns):
+                    continue
+                df = df.reset_index()
+                rows = []
+                for rec in df.to_dict("records"):
+                    ts = str(rec["timestamp"])
+                    vals = []
+                    for c in cols[name]:
+                        v = rec.get(c)
+                        vals.append(v if isinstance(v, str) else (int(v) if v == v and v is not None else "<nan>"))
+                    rows.append([rank.get(ts, 0), str(rec.get("source"))] + vals)
+                out.append([name, rows])
+            return out
+        try:
+            out1 = read(EventsSummary(base))
+            out2 = read(EventsSummary(base, preload=True))
+        except Exception as e:          # noqa: the code under test failed: an observation, not a harness failure
+            raised = f"{type(e).__name__}: {e}"[:200]
+    finally:
+        shutil.rmtree(base, ignore_errors=True)
+    files_r = [[[n, rank[ts], f"src{k}", rows] for n, ts, rows in evs] for k, evs in enumerate(files)]
+    return {"kind": "tables", "files": files_r, "out": out1, "out2": out2, "raised": raised}
 
 
 # ---------------------------------------------------------------------------------------------- C18
@@ -618,7 +693,7 @@ def config_inputs(rng, count):
         ng = rng.randint(1, 3)
         gnames = ["default"] if ng == 1 and rng.random() < 0.5 else [f"g{k}" for k in range(ng)]
         maxnodes, poll, hpc = rng.choice([0, 2, 5]), rng.choice([10, 30]), "slurm"
-        groups = [{"name": g, "hpc": hpc, "maxnodes": maxnodes, "poll": poll, "wall": rng.choice([10, 60])} for g in gnames]
+        groups = [{"name": g, "hpc": hpc, "maxnodes": maxnodes, "poll": poll, "wall": rng.choice([10, 60, 60, 1440, 1800, 2880])} for g in gnames]     # minutes; a day and more included
         jobs = []
         for k, nm in enumerate(names):
             others = [x for x in names if x != nm]
